@@ -1,0 +1,34 @@
+//go:build verif
+
+package types
+
+import "sync/atomic"
+
+// Verification hooks (build tag verif): logical step counters for the type
+// algorithms. VerifBudget > 0 makes a run that exceeds it panic, so that a
+// non-terminating computation is a deterministic event instead of a hang.
+
+const (
+	VhEqual    = 1
+	VhUnfold   = 2
+	VhContract = 3
+	VhInfer    = 4
+)
+
+var VerifSteps [5]int64
+var VerifBudget int64
+
+func vhTy(kind int) {
+	n := atomic.AddInt64(&VerifSteps[kind], 1)
+	if b := atomic.LoadInt64(&VerifBudget); b > 0 && n > b {
+		panic("verif: type algorithm step budget exceeded")
+	}
+}
+
+func VerifResetSteps() {
+	for i := range VerifSteps {
+		atomic.StoreInt64(&VerifSteps[i], 0)
+	}
+}
+
+func VerifStepCount(kind int) int64 { return atomic.LoadInt64(&VerifSteps[kind]) }
